@@ -686,6 +686,14 @@ def call_native_method(it, recv, name, args, kwargs, pc):
         leaf0 = left(leaf)
         break
     if isinstance(leaf0, str):
+        if name == "join" and len(args) == 1 and not kwargs and type(args[0]) is U and I.has_special(args[0]):
+            outs = []
+            for g, leaf in args[0].alts:
+                apc = vc.c_andg(pc, g)
+                if vc.c_is_false(apc):
+                    continue
+                outs.append((g, call_native_method(it, recv, name, [leaf], kwargs, apc)))
+            return vc.mk_union(outs, sweep=False)
         if name == "join" and len(args) == 1 and not kwargs:
             a = args[0]
             if isinstance(a, SymList):
